@@ -731,6 +731,120 @@ Proof.
     + eexists. split; [reflexivity|]. reflexivity.
 Qed.
 
+(* ====================== resource level: no leakage between the backends of a resource ====================== *)
+
+Lemma ingress_assign_entry fx plus c ns b :
+  b_kind b = KIng ->
+  ingress_assign fx plus c ns b =
+    (Some (fst (endpoints_entry fx plus c ns b)), snd (endpoints_entry fx plus c ns b)).
+Proof.
+  intros Hk. unfold ingress_assign, endpoints_entry, resolve. rewrite Hk.
+  destruct (find_svc c ns (b_svc b)) as [svc|]; [|unfold addr_list; destruct (fx41 fx); reflexivity].
+  destruct (negb (is_external (eps_for_backend fx plus c svc (b_port b))) && b_clusterip b); reflexivity.
+Qed.
+
+(* createIngressEx: whatever the function-scoped variable held before, and in whatever order
+   the backends come, every backend gets exactly its own single-backend entry *)
+Theorem ingress_no_leak fx plus c ns :
+  forall bs e0, (forall b, In b bs -> b_kind b = KIng) ->
+    ingress_loop fx plus c ns e0 bs = map (endpoints_entry fx plus c ns) bs.
+Proof.
+  induction bs as [|b rest IH]; intros e0 Hk; [reflexivity|].
+  simpl. rewrite (ingress_assign_entry fx plus c ns b) by (apply Hk; now left).
+  rewrite IH by (intros b' Hb'; apply Hk; now right).
+  destruct (endpoints_entry fx plus c ns b); reflexivity.
+Qed.
+
+Lemma labels_eqb_refl l : labels_eqb l l = true.
+Proof.
+  unfold labels_eqb. rewrite Nat.eqb_refl. simpl.
+  induction l as [|[k v] r IH]; simpl; [reflexivity|]. now rewrite !String.eqb_refl, IH.
+Qed.
+
+Lemma labels_eqb_eq a : forall b, labels_eqb a b = true -> a = b.
+Proof.
+  unfold labels_eqb. induction a as [|[k v] r IH]; intros [|[k' v'] r']; simpl; intros H; try reflexivity; try discriminate.
+  apply andb_true_iff in H. destruct H as [H1 H2]. apply andb_true_iff in H2. destruct H2 as [H2 H3].
+  apply andb_true_iff in H2. destruct H2 as [Hk Hv]. apply String.eqb_eq in Hk, Hv. subst.
+  f_equal. apply IH. now rewrite H1, H3.
+Qed.
+
+Lemma key_eqb_refl k : key_eqb k k = true.
+Proof. destruct k as [[[n s0] l] p]. simpl. now rewrite !String.eqb_refl, labels_eqb_refl, Z.eqb_refl. Qed.
+
+Lemma key_eqb_eq a b : key_eqb a b = true -> a = b.
+Proof.
+  destruct a as [[[n1 s1] l1] p1], b as [[[n2 s2] l2] p2]. simpl. rewrite !andb_true_iff.
+  intros [[[H1 H2] H3] H4]. apply String.eqb_eq in H1, H2. apply labels_eqb_eq in H3. apply Z.eqb_eq in H4. now subst.
+Qed.
+
+(* a key that is written with one value only reads that value *)
+Lemma map_get_own {V} (m : list (ep_key * V)) :
+  (forall k v k' v', In (k, v) m -> In (k', v') m -> key_eqb k k' = true -> v = v') ->
+  forall k v, In (k, v) m -> map_get k m = Some v.
+Proof.
+  induction m as [|[k0 v0] r IH]; intros Hf k v Hin; [contradiction|].
+  simpl. destruct (map_get k r) as [v'|] eqn:E.
+  - (* found further down: it is some (k1, v') with k1 = k *)
+    assert (Hex : exists k1, In (k1, v') r /\ key_eqb k k1 = true).
+    { clear - E. induction r as [|[k1 v1] r IH]; simpl in E; [discriminate|].
+      destruct (map_get k r) as [v2|] eqn:E2.
+      - injection E as <-. destruct (IH eq_refl) as (k2 & H1 & H2). exists k2. split; [now right|assumption].
+      - destruct (key_eqb k k1) eqn:E3; [|discriminate]. injection E as <-. exists k1. split; [now left|assumption]. }
+    destruct Hex as (k1 & H1 & H2). f_equal. symmetry. apply (Hf k v k1 v'); auto. now right.
+  - destruct Hin as [Hin|Hin].
+    + injection Hin as -> ->. now rewrite key_eqb_refl.
+    + rewrite (IH (fun a b a' b' H1 H2 => Hf a b a' b' (or_intror H1) (or_intror H2)) k v Hin) in E. discriminate.
+Qed.
+
+(* upstreams of a VirtualServer / VirtualServerRoute: a number, no name *)
+Definition vs_upstream (b : Backend) : Prop :=
+  (b_kind b = KVS \/ b_kind b = KVSR) /\ bp_name (b_port b) = "".
+
+Lemma same_key_same_entry fx plus c ns b ns' b' :
+  vs_upstream b -> vs_upstream b' -> b_clusterip b = b_clusterip b' ->
+  key_of ns b = key_of ns' b' ->
+  endpoints_entry fx plus c ns b = endpoints_entry fx plus c ns' b'.
+Proof.
+  intros [Hk Hn] [Hk' Hn'] Hc Hkey. unfold key_of in Hkey. injection Hkey as -> Hs Hl Hp.
+  assert (Hport : b_port b = b_port b').
+  { destruct (b_port b), (b_port b'); simpl in *; congruence. }
+  unfold endpoints_entry. rewrite Hs, Hl, Hport, Hc.
+  destruct Hk as [-> | ->], Hk' as [-> | ->]; reflexivity.
+Qed.
+
+(* createVirtualServerEx + the readers of its Endpoints map (the generators and
+   createUpstreamsForPlus): every upstream of the VirtualServer and of every VirtualServerRoute,
+   in whichever namespace it lives, reads its own single-backend resolution *in its own
+   namespace* -- never the entry of a same-named Service of another namespace *)
+Theorem vs_no_leak fx plus c ups :
+  (forall u, In u ups -> vs_upstream (snd u)) ->
+  (forall u u', In u ups -> In u' ups -> key_of (fst u) (snd u) = key_of (fst u') (snd u') ->
+                b_clusterip (snd u) = b_clusterip (snd u')) ->
+  forall u, In u ups ->
+    vs_entry_of fx plus c ups (fst u) (snd u) = endpoints_entry fx plus c (fst u) (snd u).
+Proof.
+  intros Hvs Hcl u Hu. unfold vs_entry_of.
+  rewrite (map_get_own (vs_entries fx plus c ups)) with (v := endpoints_entry fx plus c (fst u) (snd u)); [reflexivity| |].
+  - intros k v k' v' H1 H2 Hk. unfold vs_entries in H1, H2.
+    apply in_map_iff in H1. destruct H1 as (u1 & E1 & I1). apply in_map_iff in H2. destruct H2 as (u2 & E2 & I2).
+    injection E1 as <- <-. injection E2 as <- <-. apply key_eqb_eq in Hk.
+    apply same_key_same_entry; auto.
+  - unfold vs_entries. apply in_map_iff. exists u. auto.
+Qed.
+
+(* the API write of an endpoints-only update carries the servers of the file *)
+Theorem pushed_is_file plus resolver k entry l :
+  pushed plus k entry = Some l -> snd entry = false ->
+  plus = true /\ l = fst entry /\ rendered plus resolver k entry = l.
+Proof.
+  destruct entry as [endps ext]. unfold pushed. simpl. intros H ->.
+  destruct plus; [|discriminate]. destruct k; injection H as <-; repeat split; destruct endps; reflexivity.
+Qed.
+
+Theorem pushed_only_plus plus k entry : plus = false -> pushed plus k entry = None.
+Proof. intros ->. reflexivity. Qed.
+
 (* ====================== what is false: concrete witnesses ====================== *)
 
 Definition w_svc (pname : string) (port : Z) (t : target) : Service :=
